@@ -5,7 +5,7 @@ cd /verif
 declare -A PROPS=( [H1_checksum]="C10" [H2_without]="C19 C20 C11 C02" [H3_poolready]="C15" [H4_parseadd]="C02 C11 C05"
  [H5_setactive]="C01 C03 C12 C14" [H6_whenqueue]="C04 C06 C12" [H7_tick]="C01 C12" [H8_timesum]="C17 C20 C10"
  [H9_statesdiff]="C02 C20 C01" [H10_findlatest]="C17" [H11_queuemut]="C04 C03" [H12_enter]="C03 C05 C07"
- [H13_deep]="C10" [H14_txat]="C16" [H15_recover]="C08 C01" [H16_target]="C02 C11 C05" [H17_auto]="C07 C11" [H18_import]="C17 C20 C12 C01" [H19_setpool]="C15" [H20_parsestates]="C20 C11" [H21_switch]="C01 C20" )
+ [H13_deep]="C10" [H14_txat]="C16" [H15_recover]="C08 C01" [H16_target]="C02 C11 C05" [H17_auto]="C07 C11" [H18_import]="C17 C20 C12 C01" [H19_setpool]="C15" [H20_parsestates]="C20 C11" [H21_switch]="C01 C20" [H22_parsemsg]="C16" [H23_evremove]="C04 C03" )
 names="$*"; [ -z "$names" ] && names=$(ls harmless | sed 's/.diff$//')
 rc=0
 for n in $names; do
